@@ -548,7 +548,7 @@ class ConstraintMachine(LoggedMachine):
     def register(self, sid, phase):
         self.do({"op": "register", "id": sid, "phase": phase})
 
-    @rule(data=st.data(), limit=st.sampled_from([5.0, 10.5, 32.0, 80.0, 420.0]))
+    @rule(data=st.data(), limit=st.sampled_from([5.0, 10.5, 32.0, 80.0, 420.0, 0.0, 0]))
     def add(self, data, limit):
         self.state.counter += 1
         name = "con-%d" % self.state.counter
@@ -574,7 +574,7 @@ class ConstraintMachine(LoggedMachine):
     def remove(self, k, unknown):
         self.do({"op": "remove", "k": k, "unknown": unknown})
 
-    @rule(data=st.data(), k=st.integers(0, 7), limit=st.sampled_from([7.0, 33.0, 99.0]), rename=st.booleans(), unknown=st.sampled_from([False, False, False, False, True]))
+    @rule(data=st.data(), k=st.integers(0, 7), limit=st.sampled_from([7.0, 33.0, 99.0, 0.0, 0]), rename=st.booleans(), unknown=st.sampled_from([False, False, False, False, True]))
     def update(self, data, k, limit, rename, unknown):
         self.state.counter += 1
         self.do({"op": "update", "k": k, "limit": limit, "new_name": ("ren-%d" % self.state.counter) if rename else None, "unknown": unknown, "expr": data.draw(exprs(self.ids()))})
